@@ -431,6 +431,9 @@ impl C16 {
                         Err(_) => {}
                     }
                 }
+                if c.args.iter().any(|a| matches!(a, Arg::Code { text, .. } if text.len() > 65536)) {
+                    stats.class("code-file-larger-than-64KiB-with-multibyte-comments");
+                }
                 if c.stdin_pieces > 0 && consumed_input && c.stdin.len() >= 2 {
                     stats.class("stdin-through-a-pipe-in-several-writes");
                 }
@@ -503,7 +506,7 @@ impl Property for C16 {
         "C16"
     }
     fn rule(&self) -> String {
-        "argument vectors built from a model: 1..4 code chunks (bare arguments, or -f / --file temp files which may also hold comments), interleaved in random order with documented flags only (-O0..-O5, -i8..-i64, --inplace/--ir-int/--bc-int/--base-jit, --limit N incl. invalid N, --static, the four print options, -h), repeated flags (last wins); stdin is a regular temp file (70 %) or a pipe fed in 2..7 separate writes with pauses (30 %); error cases: unbalanced concatenation (a chunk with a stray bracket), a file that does not exist, a file that is not UTF-8. The real binary (built from /repo's working tree) is run as a process. Oracle = model of the documented argument processing + reference interpreter + the library: stdout equals the canonical output of the concatenated code at the selected width (prefix under --limit, and byte-identical to what the selected library back end prints with that budget, which reveals back-end family/level where budgets differ); print options print exactly the library's rendering for the selected (width, level) - which reveals width and level - and leave the stdin offset at 0; exit 0; errors give exit 1, empty stdout and a non-empty diagnostic on stderr (its wording is not checked); on a sample the run is repeated under strace and the anonymous PROT_EXEC mapping must be present exactly when the base JIT (also: the default) is selected. Non-trivial: at least two chunks of which one from a file, a non-default width/back end/level, and (for runs) input consumed; distinct = distinct (argv model, stdin)".into()
+        "argument vectors built from a model: 1..4 code chunks (bare arguments, or -f / --file temp files which may also hold comments; 3 % of the files are a little over 64 KiB with multi-byte comment characters around byte offset 65536), interleaved in random order with documented flags only (-O0..-O5, -i8..-i64, --inplace/--ir-int/--bc-int/--base-jit, --limit N incl. invalid N, --static, the four print options, -h), repeated flags (last wins); stdin is a regular temp file (70 %) or a pipe fed in 2..7 separate writes with pauses (30 %); error cases: unbalanced concatenation (a chunk with a stray bracket), a file that does not exist, a file that is not UTF-8. The real binary (built from /repo's working tree) is run as a process. Oracle = model of the documented argument processing + reference interpreter + the library: stdout equals the canonical output of the concatenated code at the selected width (prefix under --limit, and byte-identical to what the selected library back end prints with that budget, which reveals back-end family/level where budgets differ); print options print exactly the library's rendering for the selected (width, level) - which reveals width and level - and leave the stdin offset at 0; exit 0; errors give exit 1, empty stdout and a non-empty diagnostic on stderr (its wording is not checked); on a sample the run is repeated under strace and the anonymous PROT_EXEC mapping must be present exactly when the base JIT (also: the default) is selected. Non-trivial: at least two chunks of which one from a file, a non-default width/back end/level, and (for runs) input consumed; distinct = distinct (argv model, stdin)".into()
     }
     fn assumptions(&self) -> Vec<String> {
         vec![
@@ -519,7 +522,20 @@ impl Property for C16 {
         }
     }
     fn strategy(&self, _tier: Tier) -> BoxedStrategy<CliCase> {
-        let code = (chunk_text(), any::<bool>(), any::<bool>()).prop_map(|(text, via_file, long_flag)| Arg::Code { text, via_file, long_flag });
+        let small = (chunk_text(), any::<bool>(), any::<bool>()).prop_map(|(text, via_file, long_flag)| Arg::Code { text, via_file, long_flag });
+        // a file of a little over 64 KiB: code, then an ASCII comment, then multi-byte comment characters placed so
+        // that they lie around byte offset 65536 (whatever block size a reader uses, 64 KiB is the usual one)
+        let big = (chunk_text(), 0usize..150, any::<bool>()).prop_map(|(code, d, long_flag)| {
+            let pad = 65536usize.saturating_sub(code.len() + 1 + d);
+            let mut text = code;
+            text.push('\n');
+            text.extend(std::iter::repeat('c').take(pad));
+            for _ in 0..20 {
+                text.push_str("é☃𝄞");
+            }
+            Arg::Code { text, via_file: true, long_flag }
+        });
+        let code = prop_oneof![30 => small, 1 => big];
         let stray = (vec(0usize..8, 1..8), any::<bool>()).prop_map(|(v, via_file)| Arg::Code { text: v.into_iter().map(|i| CODE_CHARS[i]).collect::<String>() + "]", via_file, long_flag: false });
         let flag = prop_oneof![
             6 => prop_oneof![Just("-O0"), Just("-O1"), Just("-O2"), Just("-O3"), Just("-O4"), Just("-O5")].prop_map(|s| Arg::Flag(s.into())),
@@ -578,6 +594,6 @@ impl Property for C16 {
     }
     fn floors(&self, tier: Tier) -> Vec<(&'static str, u64)> {
         let q = if tier == Tier::Quick { 1 } else { 20 };
-        vec![("nontrivial", 1500 * q), ("run:limited", 1000 * q), ("error:unbalanced", 600 * q), ("error:file-cannot-be-opened", 300 * q), ("print:PrintIr", 200 * q), ("strace-probe", 200 * q), ("stdin-through-a-pipe-in-several-writes", 300 * q), ("non-default-configuration", 4000 * q), ("limit-output-reveals-backend-family", 200 * q), ("print-ir-reveals-level", 100 * q)]
+        vec![("nontrivial", 1500 * q), ("run:limited", 1000 * q), ("error:unbalanced", 600 * q), ("error:file-cannot-be-opened", 300 * q), ("print:PrintIr", 200 * q), ("strace-probe", 200 * q), ("stdin-through-a-pipe-in-several-writes", 300 * q), ("code-file-larger-than-64KiB-with-multibyte-comments", 100 * q), ("non-default-configuration", 4000 * q), ("limit-output-reveals-backend-family", 200 * q), ("print-ir-reveals-level", 100 * q)]
     }
 }
